@@ -331,7 +331,21 @@ func propC11(c *Ctx) {
 							// element of a []dig.Input: the slice must be e.Inputs
 							if sl, ok := x.X.Type().Underlying().(*types.Slice); ok && repoNamedIs(sl.Elem(), "dig", "Input") {
 								if _, ch := fieldChain(x.X); !(len(ch) == 1 && ch[0] == fInputs) {
-									overAll = false
+									// … or the list another of these functions makes of e.Inputs (e.indexed()), itself judged here
+									fromSrc := false
+									if call, _ := resultOf(stripConv(x.X)); call != nil {
+										if cal := staticCallee(call); cal != nil && srcFns[cal] {
+											fromSrc = true
+										}
+									}
+									if call, ok := stripConv(x.X).(*ssa.Call); ok {
+										if cal := staticCallee(call); cal != nil && srcFns[cal] {
+											fromSrc = true
+										}
+									}
+									if !fromSrc {
+										overAll = false
+									}
 								}
 							}
 						case *ssa.Call:
